@@ -285,6 +285,10 @@ impl EncryptedWalletSeed {
 
 	/// Decrypt seed
 	pub fn decrypt(&self, password: &str) -> Result<WalletSeed, Error> {
+		// util::from_hex slices the string at byte offsets: only feed it ASCII
+		if !(self.encrypted_seed.is_ascii() && self.salt.is_ascii() && self.nonce.is_ascii()) {
+			return Err(Error::Encryption);
+		}
 		let mut encrypted_seed = match util::from_hex(&self.encrypted_seed.clone()) {
 			Ok(s) => s,
 			Err(_) => return Err(Error::Encryption),
@@ -297,6 +301,9 @@ impl EncryptedWalletSeed {
 			Ok(s) => s,
 			Err(_) => return Err(Error::Encryption),
 		};
+		if nonce.len() < 12 {
+			return Err(Error::Encryption);
+		}
 		let password = password.as_bytes();
 		let mut key = [0; 32];
 		pbkdf2::derive(
